@@ -414,6 +414,9 @@ package plenccodec
 
 //@ func plenccodec.*StructCodec.Read
 //@   safety C04 C11
+//@   noreads[C03] description.name            # decoding is driven by the index found in the data, never by a name
+//@   noreads[C03] description.index           # ... and not by declaration order either: only the index table is consulted
+//@   ensures[C03,C05] err == nil ==> n == len(data)       # every field, known or skipped, is consumed exactly: the reader ends at the end
 //@   loop 1 invariant[C04] 0 <= offset && offset <= l && l == len(data)
 //@   loop 1 decreases l - offset
 //@   ensures[C04,C05] err == nil ==> 0 <= n && n <= len(data)
@@ -444,6 +447,7 @@ package plenccodec
 //@ func plenccodec.TimeCodec.Read
 //@   safety C04 C11
 //@   writes ptr 24
+//@   ensures[C03,C05] err == nil ==> n == len(data)
 //@   loop 1 invariant[C04] 0 <= offset && offset <= l && l == len(data)
 //@   loop 1 decreases l - offset
 //@   ensures[C04,C05] err == nil ==> 0 <= n && n <= len(data)
@@ -451,6 +455,7 @@ package plenccodec
 //@ func plenccodec.TimeCompatCodec.Read
 //@   safety C04 C11
 //@   writes ptr 24
+//@   ensures[C03,C05] err == nil ==> n == len(data)
 //@   loop 1 invariant[C04] 0 <= offset && offset <= l && l == len(data)
 //@   loop 1 decreases l - offset
 //@   ensures[C04,C05] err == nil ==> 0 <= n && n <= len(data)
@@ -526,3 +531,49 @@ package plenccodec
 //@   loop 1 invariant[C04] 0 <= offset && offset <= len(data)
 //@   loop 1 decreases len(data) - offset
 //@   ensures[C04] err == nil ==> 0 <= n && n <= len(data)
+
+// ---------------------------------------------------------------------------
+// struct encoders never look at field names (C03: renaming a field cannot change the encoding)
+
+//@ # psum(i) is the encoded size of the first i fields (ghost, defined by its recurrence under wfsum()).
+//@ # The address a field codec is given: ptr + offset, or the map header stored there for map fields.
+
+//@ func plenccodec.*StructCodec.size
+//@   safety C03 C05
+//@   assigns nothing
+//@   noreads[C03] description.name
+//@   ghostdef wfsum() ==> psum(0) == 0
+//@   loop 1 ghostdef wfsum() && rangeindex + 1 < len(c.fields) ==> psum(rangeindex + 2) == psum(rangeindex + 1) + \
+//@        ite(@plenccodec.Codec.Omit(c.fields[rangeindex + 1].codec, ite(c.fields[rangeindex + 1].deref, loadptr(ptr + c.fields[rangeindex + 1].offset), ptr + c.fields[rangeindex + 1].offset)), 0, \
+//@            @plenccodec.Codec.Size(c.fields[rangeindex + 1].codec, ite(c.fields[rangeindex + 1].deref, loadptr(ptr + c.fields[rangeindex + 1].offset), ptr + c.fields[rangeindex + 1].offset), c.fields[rangeindex + 1].tag))
+//@   loop 1 invariant[C05] rangeindex + 1 <= len(c.fields) && (wfsum() ==> size == psum(rangeindex + 1))
+//@   loop 1 decreases len(c.fields) - rangeindex
+//@   ensures[C05] wfsum() ==> size == psum(len(c.fields))
+
+//@ func plenccodec.*StructCodec.append
+//@   safety C03 C05 C11
+//@   assigns nothing
+//@   noreads[C03] description.name
+//@   ghostdef wfsum() ==> psum(0) == 0
+//@   loop 1 ghostdef wfsum() && rangeindex + 1 < len(c.fields) ==> psum(rangeindex + 2) == psum(rangeindex + 1) + \
+//@        ite(@plenccodec.Codec.Omit(c.fields[rangeindex + 1].codec, ite(c.fields[rangeindex + 1].deref, loadptr(ptr + c.fields[rangeindex + 1].offset), ptr + c.fields[rangeindex + 1].offset)), 0, \
+//@            @plenccodec.Codec.Size(c.fields[rangeindex + 1].codec, ite(c.fields[rangeindex + 1].deref, loadptr(ptr + c.fields[rangeindex + 1].offset), ptr + c.fields[rangeindex + 1].offset), c.fields[rangeindex + 1].tag))
+//@   loop 1 invariant[C05] rangeindex + 1 <= len(c.fields) && (wfsum() ==> len(data) == len(data0) + psum(rangeindex + 1))
+//@   loop 1 invariant[C06,C11] len(data) >= len(data0) && (forall j int :: 0 <= j && j < len(data0) ==> data[j] == data0[j])
+//@   loop 1 decreases len(c.fields) - rangeindex
+//@   ensures[C05] wfsum() ==> len(result) == len(data) + psum(len(c.fields))
+//@   ensures[C06,C11] len(result) >= len(data) && (forall j int :: 0 <= j && j < len(data) ==> result[j] == old(data[j]))
+
+//@ func plenccodec.*StructCodec.Size
+//@   safety C05
+//@   assigns nothing
+//@   ensures[C05] wfsum() && len(tag) == 0 ==> result == psum(len(c.fields))
+//@   ensures[C05] wfsum() && len(tag) != 0 ==> result == len(tag) + vlen(uint64(psum(len(c.fields)))) + psum(len(c.fields))
+
+//@ func plenccodec.*StructCodec.Append
+//@   safety C05 C11
+//@   assigns nothing
+//@   ensures[C05] wfsum() ==> len(result) == len(data) + @Size(c, ptr, tag)             # the codec law for structs
+//@   ensures[C05,C02] wfsum() && len(tag) != 0 ==> at(result, len(data) + len(tag), venc(uint64(psum(len(c.fields)))), 10)   # the length prefix is the body size
+//@   ensures[C05,C02] len(tag) != 0 ==> (forall j int :: 0 <= j && j < len(tag) ==> result[len(data) + j] == tag[j])
+//@   ensures[C06,C11] len(result) >= len(data) && (forall j int :: 0 <= j && j < len(data) ==> result[j] == old(data[j]))
